@@ -28,10 +28,13 @@ pub fn line_changes_from_diff(
             // Deleted files are ignored.
             continue;
         }
-        result.insert(
-            patched_file.target_file.trim_start_matches("b/").into(),
-            line_changes(&patched_file),
-        );
+        // Git prefixes the target path with a single "b/"; the path itself may start with a
+        // directory named "b" as well.
+        let target_file = patched_file
+            .target_file
+            .strip_prefix("b/")
+            .unwrap_or(&patched_file.target_file);
+        result.insert(target_file.into(), line_changes(&patched_file));
     }
     Ok(result)
 }
